@@ -31,6 +31,11 @@ type c04Case struct {
 	StmtSteps [][2]int  `json:"stmt_steps,omitempty"` // predicted (line, col) of each statement step
 	ExprSteps [][2]int  `json:"expr_steps,omitempty"`
 	Mode      Mode      `json:"mode"`
+	// Builder history: Split > 0 installs only Chain[:Split] before the first
+	// parsers are built and the rest afterwards; Builds is the number of parsers
+	// built (and used) from the same builder in each stage (0 = 1).
+	Split  int `json:"split,omitempty"`
+	Builds int `json:"builds,omitempty"`
 }
 
 type c04Entry struct {
@@ -59,7 +64,11 @@ type c04Run struct {
 	tokLog  []c04TokEntry
 }
 
-func c04Execute(c c04Case, chain []c04Icpt) (r c04Run) {
+// c04Execute installs the chain on one lexer/parser builder pair and returns one
+// run per parser built from it, together with the part of the chain that was
+// installed when that parser was built.
+func c04Execute(c c04Case, chain []c04Icpt) (runs []*c04Run, eff [][]c04Icpt) {
+	r := &c04Run{}
 	lb := lexer.NewBuilder()
 	pb := parser.NewBuilder(lb)
 	if c.Mode.Tolerant {
@@ -69,7 +78,26 @@ func c04Execute(c c04Case, chain []c04Icpt) (r c04Run) {
 		pb.WithSmartSemicolon(true)
 	}
 	nTok, nStmt, nExpr := 0, 0, 0
-	for _, ic := range chain {
+	split := c.Split
+	if split <= 0 || split > len(chain) {
+		split = len(chain)
+	}
+	builds := c.Builds
+	if builds <= 0 {
+		builds = 1
+	}
+	stage := func(upto int) {
+		for b := 0; b < builds; b++ {
+			r = &c04Run{}
+			c04Parse(c, lb, pb, r)
+			runs = append(runs, r)
+			eff = append(eff, chain[:upto])
+		}
+	}
+	for ci, ic := range chain {
+		if ci == split {
+			stage(split)
+		}
 		switch ic.Kind {
 		case "tok":
 			i := nTok
@@ -145,6 +173,11 @@ func c04Execute(c c04Case, chain []c04Icpt) (r c04Run) {
 			}
 		}
 	}
+	stage(len(chain))
+	return runs, eff
+}
+
+func c04Parse(c c04Case, lb *lexer.Builder, pb *parser.Builder, r *c04Run) {
 	// token stream through the same lexer builder
 	l := lb.Build(c.Src)
 	for i := 0; i < len(c.Src)+3; i++ {
@@ -163,7 +196,6 @@ func c04Execute(c c04Case, chain []c04Icpt) (r c04Run) {
 			r.outs = append(r.outs, compile(r.prog, cfg).Code)
 		}
 	}
-	return r
 }
 
 func c04Groups(log []c04Entry, k int, what string) (starts []c04Entry, f *Fail) {
@@ -189,9 +221,30 @@ func c04Groups(log []c04Entry, k int, what string) (starts []c04Entry, f *Fail) 
 }
 
 func c04Check(c c04Case, rec *evid.Recorder) *Fail {
-	rec.Eval()
-	base := c04Execute(c, nil)
-	got := c04Execute(c, c.Chain)
+	plain := c
+	plain.Split, plain.Builds = 0, 0
+	bases, _ := c04Execute(plain, nil)
+	runs, effs := c04Execute(c, c.Chain)
+	for i := range runs {
+		rec.Eval()
+		if f := c04CheckRun(c, *bases[0], *runs[i], effs[i], rec); f != nil {
+			if len(runs) > 1 {
+				f.Msg += fmt.Sprintf("\n(parser %d of %d built from one builder; %d of %d interceptors installed before the first build, %d builds per stage)", i+1, len(runs), len(effs[0]), len(c.Chain), len(runs)/2)
+			}
+			return f
+		}
+	}
+	if len(runs) > 1 {
+		rec.Class("builder-reused")
+	}
+	if c.Split > 0 && c.Split < len(c.Chain) {
+		rec.Class("interceptors-installed-after-first-build")
+	}
+	return nil
+}
+
+func c04CheckRun(c c04Case, base, got c04Run, chain []c04Icpt, rec *evid.Recorder) *Fail {
+	c.Chain = chain
 	// 1. transparency
 	if !reflect.DeepEqual(base.toks, got.toks) {
 		return failf("token stream changes when pass-through interceptors are installed\nchain %v\nsrc %q", c.Chain, c.Src)
@@ -365,10 +418,17 @@ func c04Gen(t *rapid.T, rec *evid.Recorder) c04Case {
 		c.Chain = append(c.Chain, c04Icpt{Kind: k, Plugin: r.Bool("plugin")})
 		rec.Class("interceptor:" + k)
 	}
+	if r.Intn(3, "reuse") == 0 {
+		c.Builds = 1 + r.Intn(3, "builds")
+		if len(c.Chain) > 1 && r.Bool("late") {
+			c.Split = 1 + r.Intn(len(c.Chain)-1, "split")
+		}
+	}
 	return c
 }
 
 var c04Witnesses = []c04Case{
+	{Src: "let a = b + c; if (a) { b } else c", Chain: []c04Icpt{{Kind: "stmt"}, {Kind: "stmt"}, {Kind: "expr"}, {Kind: "expr", Plugin: true}, {Kind: "stmt"}, {Kind: "expr"}}, Builds: 3, Split: 3},
 	{Src: "let a = -b * (c + d[e]).f(g, {h: 1})", Chain: []c04Icpt{{Kind: "expr"}, {Kind: "expr-re"}, {Kind: "stmt"}, {Kind: "stmt", Plugin: true}, {Kind: "tok"}, {Kind: "tok"}}},
 	{Src: "a = b = c + d * e - f", Chain: []c04Icpt{{Kind: "expr-re"}}},
 	{Src: "a = b = c + d * e - f < g || h && !i", Chain: []c04Icpt{{Kind: "expr"}, {Kind: "expr"}, {Kind: "expr-re"}, {Kind: "expr"}}},
